@@ -230,6 +230,8 @@ func Run(r *core.Run) {
 		add(scen.EcResharing(3, 1, []int{0, 2}, 3, 2, r.Seed, false), "dev", 0, true)
 		add(scen.EcResharing(3, 2, []int{0, 1, 2}, 2, 1, r.Seed, true), "dev", 0, true)
 		add(scen.EdResharing(3, 1, []int{0, 1, 2}, 2, 1, r.Seed), "", 0, true)
+		// ECDSA resharing, ALL delivery schedules (decomposed; every reachable state is a cut point)
+		add(scen.EcResharing(2, 1, []int{0, 1}, 2, 1, r.Seed, true), "", 0, false)
 	}
 	var states, trans, traces int
 	for _, j := range jobs {
